@@ -394,3 +394,37 @@ class DrawInitialSamples(DrawInitialSamplesModel):
         likes = [e for e in p.events if e[0] == "user_log_likelihood"]
         p.prove(z3.BoolVal(len(likes) == 1 and likes[0][1] is r), f"{q}:C17:the likelihood is evaluated once, after trimming, on the returned object")
         p.prove(to_int(g["s"].f["n_likelihood_evaluations"]) == to_int(g["evals0"]) + g["n"], f"{q}:C17:evaluation counter grows by the number of points evaluated")
+
+
+class ImportanceSample(Contract):
+    qual = "samplers.importance:ImportanceSampler.sample"
+    properties = ("C10", "C17", "C02", "C15")
+    doc = ("draws n_samples points with their proposal log-density from the flow in one call; attaches the prior of exactly those points, then the "
+           "likelihood of exactly those points (counted), then computes the weights; all three caches belong to the rows")
+
+    def setup(self, I, shape):
+        s = mk_sampler_obj(I, "ImportanceSampler")
+        n = z3.Int("n_samples")
+        I.path.assume(n >= 1)
+        return Pre(s, [IV(n)], ghost={"s": s, "n": n, "evals0": s.f["n_likelihood_evaluations"]})
+
+    def post(self, I, pre, r):
+        p, g = I.path, pre.ghost
+        q = self.qual
+        s = g["s"]
+        if not (isinstance(r, Obj) and r.cls == "Samples"):
+            p.prove(z3.BoolVal(False), f"{q}:returns Samples")
+            return
+        p.prove(r.f["x"].n == g["n"], f"{q}:C10:exactly the requested number of samples")
+        draws = [e for e in p.events if e[0] == "flow.sample_and_log_prob"]
+        p.prove(z3.BoolVal(len(draws) == 1), f"{q}:C10:C20:one draw from the proposal")
+        if draws:
+            p.prove(arr_eq_goal(r.f["x"], draws[0][2]), f"{q}:C10:the returned coordinates are the proposal's draws")
+        for nm, gl in aligned_goals(q, r):
+            p.prove(gl, nm)
+        likes = [e for e in p.events if e[0] == "user_log_likelihood"]
+        p.prove(z3.BoolVal(len(likes) == 1 and likes[0][1] is r), f"{q}:C17:the likelihood is evaluated once on the returned sample set")
+        p.prove(to_int(s.f["n_likelihood_evaluations"]) == to_int(g["evals0"]) + g["n"], f"{q}:C17:evaluation counter grows by the number of points evaluated")
+        p.prove(z3.BoolVal(isinstance(r.f.get("log_w"), Arr)), f"{q}:C02:weights computed for the returned set")
+        p.prove(z3.BoolVal(dtype_carried(r.f.get("dtype"), s.f["dtype"])), f"{q}:C15:population built with the precision requested from the sampler")
+        p.prove(z3.BoolVal(r.f.get("parameters") is s.f["parameters"]), f"{q}:parameters of the sampler")
